@@ -6,7 +6,15 @@ require github.com/jotaen/klog v0.0.0
 
 require (
 	cloud.google.com/go v0.118.2 // indirect
+	github.com/alecthomas/kong v1.8.0 // indirect
+	github.com/hashicorp/errwrap v1.1.0 // indirect
+	github.com/hashicorp/go-multierror v1.1.1 // indirect
+	github.com/jotaen/genie v0.0.1 // indirect
+	github.com/jotaen/kong-completion v0.0.6 // indirect
 	github.com/jotaen/safemath v0.0.1 // indirect
+	github.com/kballard/go-shellquote v0.0.0-20180428030007-95032a82bc51 // indirect
+	github.com/posener/complete v1.2.3 // indirect
+	github.com/riywo/loginshell v0.0.0-20200815045211-7d26008be1ab // indirect
 )
 
 replace github.com/jotaen/klog => /repo
